@@ -184,8 +184,13 @@ def main(argv=None):
                 print('ANALYSIS-ERROR property=%s %s' % (prop, p))
             return 2 if rc == 0 else rc
         n_inst = sum(c[0] for c in ctx.rule_counts.values())
-        print('%s %s: %d rules, %d instances, %d findings (%d unlisted), controls %s, %.2fs' % (
-            prop, a.tier, len(ctx.rule_counts), n_inst, len(ctx.findings),
+        n_und = len([i for i in ctx.instances if str(i[2]).startswith(('undecided', 'not-analysed'))])
+        if a.verbose:
+            for i in ctx.instances:
+                if str(i[2]).startswith(('undecided', 'not-analysed')):
+                    print('  UNDECIDED %s %s %s' % (i[0], i[1], i[3]))
+        print('%s %s: %d rules, %d instances (%d undecided), %d findings (%d unlisted), controls %s, %.2fs' % (
+            prop, a.tier, len(ctx.rule_counts), n_inst, n_und, len(ctx.findings),
             len([f for f in ctx.findings if not known.match(f)]),
             ('%d/%d killed, %d/%d silent' % (controls['mutants_killed'], controls['mutants_total'] - controls['mutants_skipped'],
                                              controls['refactors_silent'], controls['refactors_total'] - controls['refactors_skipped'])) if controls else 'off',
